@@ -19,6 +19,9 @@ static unsigned vx_patches; static size_t vx_patch_at; static uint32_t vx_patch_
 static unsigned vx_scalars; static uint64_t vx_scalar; static int vx_scalar_width;
 static uint8_t vx_subtype;
 static unsigned vx_flushes, vx_terminators, vx_names; static size_t vx_name_index;
+static unsigned vx_vals; static uint8_t vx_val; static unsigned vx_validations, vx_other_arms; static bool vx_utf8_ok;
+static void vx_push_val(uint8_t b) { vx_vals++; vx_val = b; vx_bufsize++; }
+static uint64_t vx_bits64(double f) { union { double f; uint64_t u; } x; x.f = f; return x.u; }
 static void vx_push_byte(uint8_t b) { (void)b; vx_bufsize++; }
 static void vx_put_le(uint64_t v, int width) { vx_scalars++; vx_scalar = v; vx_scalar_width = width; vx_bufsize += (size_t)width; }
 static void vx_patch32(uint32_t v, size_t at) { __CPROVER_assert(at + 4 <= vx_bufsize, "[C05] the length is patched inside the buffer"); vx_patches++; vx_patch_at = at; vx_patch_val = v; }
@@ -36,6 +39,10 @@ static uint64_t vx_div_nano_u(uint64_t v) { uint64_t q = nondet_u64(); __CPROVER
 /*@FUNC visit_key@*/
 /*@FUNC visit_byte_string@*/
 /*@FUNC visit_byte_string_tagged@*/
+/*@FUNC visit_null@*/
+/*@FUNC visit_bool@*/
+/*@FUNC visit_double@*/
+/*@FUNC visit_string@*/
 /*@FUNC visit_int64@*/
 /*@FUNC visit_uint64@*/
 #ifdef VX_CBMC
@@ -43,8 +50,9 @@ static struct bson_encoder vx_e; static int vx_ec;
 static void setup(void)
 {
     vx_e.nesting_depth_ = nondet_int(); vx_e.max_nesting_depth_ = nondet_int(); vx_depth = nondet_size(); vx_top.type_ = nondet_int(); vx_top.offset_ = nondet_size(); vx_top.name_offset_ = nondet_size(); vx_top.index_ = nondet_size();
-    vx_bufsize = nondet_size(); vx_pushes = 0; vx_pops = 0; vx_codes = 0; vx_code_patched = false; vx_patches = 0; vx_scalars = 0; vx_flushes = 0; vx_terminators = 0; vx_names = 0; vx_ec = 0;
+    vx_bufsize = nondet_size(); vx_pushes = 0; vx_pops = 0; vx_codes = 0; vx_code_patched = false; vx_patches = 0; vx_scalars = 0; vx_flushes = 0; vx_terminators = 0; vx_names = 0; vx_ec = 0; vx_vals = 0; vx_validations = 0; vx_other_arms = 0; vx_utf8_ok = nondet_bool();
 }
+double nondet_double(void);
 void h_before_value(void) { setup(); before_value(&vx_e, nondet_u8()); }
 void h_visit_begin_object(void) { setup(); visit_begin_object(&vx_e, &vx_ec); }
 void h_visit_begin_array(void) { setup(); visit_begin_array(&vx_e, &vx_ec); }
@@ -53,6 +61,10 @@ void h_visit_end_array(void) { setup(); visit_end_array(&vx_e, &vx_ec); }
 void h_visit_key(void) { setup(); visit_key(&vx_e, nondet_size()); }
 void h_visit_byte_string(void) { setup(); visit_byte_string(&vx_e, nondet_size(), &vx_ec); }
 void h_visit_byte_string_tagged(void) { setup(); visit_byte_string_tagged(&vx_e, nondet_size(), nondet_u64(), &vx_ec); }
+void h_visit_null(void) { setup(); uint8_t t = nondet_u8(); visit_null(&vx_e, t, &vx_ec); }
+void h_visit_bool(void) { setup(); bool b = nondet_bool(); visit_bool(&vx_e, b, &vx_ec); }
+void h_visit_double(void) { setup(); double v = nondet_double(); visit_double(&vx_e, v, &vx_ec); }
+void h_visit_string(void) { setup(); size_t n = nondet_size(); uint8_t t = nondet_u8(); visit_string(&vx_e, n, t, &vx_ec); }
 static uint8_t vx_other_tag(void) { uint8_t t = nondet_u8(); __CPROVER_assume(t != semantic_tag_epoch_second && t != semantic_tag_epoch_milli && t != semantic_tag_epoch_nano); return t; }
 void h_visit_int64_none(void) { setup(); visit_int64(&vx_e, nondet_i64(), vx_other_tag(), &vx_ec); }
 void h_visit_int64_epoch_second(void) { setup(); visit_int64(&vx_e, nondet_i64(), semantic_tag_epoch_second, &vx_ec); }
